@@ -82,7 +82,7 @@ def meta(tier):
                             symbolic="the declared / referenced name: every name [A-Za-z][A-Za-z0-9_]* of that length (all intrinsics of that length included)"),
                 assumptions=["the argument count of the reference (1-3) is the first one the parser accepts when nothing is declared",
                              "names equal to statement keywords are excluded"],
-                budget_s=400 if q else 2400, unit_budget_s=120 if q else 900, witness_every=20)
+                budget_s=400 if q else 1500, unit_budget_s=120 if q else 900, witness_every=20)
 
 
 def _ancestors(scopes, sid):
